@@ -60,6 +60,16 @@ pub fn tiny_txt_contents() -> Vec<Vec<Vec<u8>>> {
             for cut in 0..=len { out.push(vec![t[..cut].to_vec(), t[cut..].to_vec()]); }
         }
     }
+    // lengths 4 and 5 over the characters that delimit or quote (`a=""` is the shortest text with a key and a quoted
+    // empty value): whole only
+    let alpha2: [u8; 6] = [b'"', b';', b'=', b'\'', b'a', b'\\'];
+    for len in 4..=5usize {
+        for mut code in 0..alpha2.len().pow(len as u32) {
+            let mut t = vec![];
+            for _ in 0..len { t.push(alpha2[code % alpha2.len()]); code /= alpha2.len(); }
+            out.push(vec![t]);
+        }
+    }
     out
 }
 
@@ -199,7 +209,7 @@ pub fn cases(tier: &str, seed: u64) -> Vec<Case> {
             match r.below(5) {
                 0 => r.bytes(l),
                 1 => { let mut b = rand_string(&mut r, l).into_bytes(); if !b.is_empty() && r.chance(1, 3) { let i = r.below(b.len() as u64) as usize; b[i] = 0xFF; } b }
-                _ => { let pool = ["a", "b", "a=", "a=1", "b=2", "=x", "a=b=c", "k", ";", "a;b=1", "é=ü", "A", "A=2", "K=v", "key=first", "KEY=other", "Key", "flag`", "`", "a`=b", " a=1", "a =2", "a= 3", "\ta=4", "a\u{a0}=5", " ", " =6", "b=1; a=2;a =3", "x;; y=1", "k=1;k=2", "flag;flag=1", "e=;e=full", "v=0.1;p=1;v=dup"]; let mut s = r.pick(&pool).to_string(); if r.chance(1, 3) { s.push_str(&rand_string(&mut r, 3)); } s.into_bytes() }
+                _ => { let pool = ["a=\"\"", "k=\"v\"", "k='v'", "\"k\"=v", "note=\"a;b\"", "a=%20b", "a=b&c=d", "a=1\r\nb=2", "a=#x;b", "k=[1,2]", "a", "b", "a=", "a=1", "b=2", "=x", "a=b=c", "k", ";", "a;b=1", "é=ü", "A", "A=2", "K=v", "key=first", "KEY=other", "Key", "flag`", "`", "a`=b", " a=1", "a =2", "a= 3", "\ta=4", "a\u{a0}=5", " ", " =6", "b=1; a=2;a =3", "x;; y=1", "k=1;k=2", "flag;flag=1", "e=;e=full", "v=0.1;p=1;v=dup"]; let mut s = r.pick(&pool).to_string(); if r.chance(1, 3) { s.push_str(&rand_string(&mut r, 3)); } s.into_bytes() }
             }
         }).collect() };
         let t = txt_of(&strings);
@@ -282,8 +292,8 @@ pub fn cases(tier: &str, seed: u64) -> Vec<Case> {
     // split by `TXT::try_from(&str)` wherever the 255-byte limit falls (inside a multi-byte character, inside a key, right
     // after a ';' or '='), read back as one text
     for total in (230..=300usize).step_by(if thorough { 1 } else { 3 }).chain((480..=540).step_by(if thorough { 1 } else { 5 })).chain([760, 1020, 1500, 4000]) {
-        for fill in ["v", "é", "€", "\u{1F600}", "a=b", ";;"] {
-            for lead in ["name=xx", "k", "flag;name=", "é=", ""] {
+        for fill in ["v", "é", "€", "\u{1F600}", "a=b", ";;", "\"", "\"q\";"] {
+            for lead in ["name=xx", "k", "flag;name=", "é=", "", "q=\""] {
                 let mut text = String::from(lead);
                 while text.len() + fill.len() + 9 <= total { text.push_str(fill); }
                 text.push_str(";flag;n=1");
